@@ -244,8 +244,15 @@ func renderBack(s *schema.Schema, tg planTarget, back any) (string, error) {
 // real code: the encoder leaves the message it is handed as it is; the bytes it returned stay as they are when
 // the library is called again; a cleared, re-used encoder gives the bytes a fresh one gives.
 func planEncoderHygiene(ctx *Ctx, s *schema.Schema, tg planTarget, x reflect.Value, val string, b []byte, conforming bool, line string) {
-	if after, err := s.Render(x, s.Dyns[tg.dyn].Kind); err != nil || after != val {
-		ctx.Res.Violate(report.Violation{Property: "C01", Oracle: "encoder-input-unmodified", Key: "plan:input-modified:" + s.Dyns[tg.dyn].GoType, Detail: "MarshalTTLV modified the message it was handed: " + firstDiff(val, after), Line: line})
+	// (rendered under recover: a big.Int whose words were scribbled on may not even print)
+	if after, pr := guard("render", func() string {
+		r, err := s.Render(x, s.Dyns[tg.dyn].Kind)
+		if err != nil {
+			return "unrenderable: " + err.Error()
+		}
+		return r
+	}); pr != "" || after != val {
+		ctx.Res.Violate(report.Violation{Property: "C01", Oracle: "encoder-input-unmodified", Key: "plan:input-modified:" + s.Dyns[tg.dyn].GoType, Detail: "MarshalTTLV modified the message it was handed: " + firstDiff(val, after) + " " + pr, Line: line})
 	}
 	keep := append([]byte{}, b...)
 	reuse, p := guard("Encoder reuse", func() []byte {
